@@ -127,8 +127,11 @@ class C07:
             cases.append({"kind": "execd", "pairs": [[k, rng.choice(STRS)] for k in keys], "fd3": rng.random() < 0.15})
         return cases
 
+    # a longer document already at the destination (every third case): what is written must not depend on it
+    OLD = list(b'# left by an earlier build\nold = "' + b"v" * 3000 + b'"\n\n[tail]\nz = 1\n\n[[processes]]\ntype = "stale"\n')
+
     def to_harness(self, c):
-        h = {"id": c["id"], "kind": c["kind"]}
+        h = {"id": c["id"], "kind": c["kind"], "pre": self.OLD if c["id"] % 3 == 0 else None}
         if c["kind"] == "plan":
             h["calls"] = [dict(x, n=jb(x["n"])) if "n" in x else x for x in c["calls"]]
             for x in h["calls"]:
